@@ -37,6 +37,8 @@ class Feat:
         self.regfam = 0.0
         self.deref = 0.0
         self.group_times = 0.0
+        self.excess_ops = 0.0      # operand items beyond the instruction's operand count
+        self.any = 0.0             # the shipped @any macro as mnemonic / operand / deref value
         self.max_depth = 2
         self.max_spine = 4
         self.__dict__.update(kw)
@@ -129,6 +131,9 @@ class RuleGen:
             d["constant_multiplier"] = const(c)
         if self.rng.random() < 0.25:
             d["main_reg"] = [{"$or": self.shuffled([d["main_reg"], self.rng.choice(["rsp", "%rbp", "rdi", "%r9"])])}]
+        for fld in ("constant_offset", "register_multiplier", "constant_multiplier"):
+            if fld in d and self.rng.random() < self.feat.any:
+                d[fld] = "@any"
         items = list(d.items())
         self.rng.shuffle(items)
         return {"$deref": dict(items)}
@@ -227,6 +232,8 @@ class RuleGen:
     def operands_for(self, ops: tuple, allow_groups=True):
         rng, f = self.rng, self.feat
         if ops == ("",):
+            if rng.random() < f.excess_ops:
+                return ["@any" if rng.random() < f.any * 2 else self.decoy_operand()]
             return None
         n = rng.randint(1, len(ops))
         # $and_any_order over two operands
@@ -237,10 +244,13 @@ class RuleGen:
                     [x for x in [self.op_name(ops[2])] if x is not None] if len(ops) > 2 and rng.random() < 0.5 else [])
         out = []
         for k in range(n):
-            node = self.operand_node(ops[k])
+            node = "@any" if (rng.random() < f.any and ops[k] != "") else self.operand_node(ops[k])
             if node is None:
                 break
             out.append(node)
+        if out and len(out) == len(ops) and rng.random() < f.excess_ops:
+            for _ in range(rng.randint(1, 2)):
+                out.append("@any" if rng.random() < f.any * 2 else self.decoy_operand())
         return out or None
 
     # ---------------------------------------------------------------- instruction nodes
@@ -249,6 +259,12 @@ class RuleGen:
         rng, f = self.rng, self.feat
         name = self.mnem_name(mnem)
         timed = allow_times and rng.random() < f.times_item
+        if rng.random() < f.any * 0.5:
+            # the macro expander only supports "@any" as a plain item or with a times body
+            node = "@any"
+            if timed:
+                node = {"@any": {"times": self.times_value(1)}}
+            return node, 1
         saved = self.allow_def
         if timed:
             self.allow_def = False
